@@ -922,7 +922,7 @@ func init() {
 			"(pairs: <= 2 x <= 2 items and same-function pairs <= 3 / <= 3 x <= 2 and <= 4): items {yield T, x = yield T; log(T, x), log(T, x), return T, raise ValueError, for i in range(2): body, try: body finally: log(T, x), try: body finally: x = yield T; log(T, x) (suspension inside the finally clause while a return value or an exception is pending), yield from child(), x = yield from child(); log(T, x)}, child = a nested shape, T = item id + 100*loop indices; return/raise only last in a block. " +
 			"Model: coroutine-style interpreter in Go (trace of log entries between resumptions; sent value = value of the yield expression; send(non-None) before the start = TypeError and the generator can still be started; return v = StopIteration with args (v,), falling off = args (); raised = exhausted; exhausted stays exhausted (twice); finally runs at completion/raise, not at suspension; yield from forwards next/send and evaluates to the child's return value). " +
 			"State = (position path, loop indices, x of every live frame, started/exhausted+cause); successors by replay of the history on fresh generators plus one operation; each transition is executed through compiled Python (next()/send()/except StopIteration as e: e.args, e.value) AND through the Go API (py.Call, py.Next, py.Send). " +
-			"(b) full product of 52 consumers (for/else, for+break, for in a function, list/set/dict/nested comprehension, generator expression under list() and tuple(), unpack 2/3, a,*b and *a,b, f(*it), list, tuple, set, bytes, sum (with/without start), min, max, sorted (plain/reverse), zip (it first/second x long/short partner), map (1 and 2 iterables), filter (None, function), enumerate, any, all, in (found/absent), not in, str.join, list.extend, list +=, next(it, default), while/next()/except StopIteration, made-but-unconsumed then one step of map/zip/filter/enumerate/genexp, py.SequenceTuple/SequenceList/SequenceSet/Iterate from Go) x 141 producers {generator function, class with __iter__/__next__, class with only __getitem__, each also behind map(f, zip(p, range(5))), map with a raising function over a list: failure position 0-2 x raised {StopIteration, StopIteration(), StopIteration(9), ValueError, KeyError, IndexError} or no failure; list iterator and range of length 0-3}; every user producer logs each step; the model predicts the result, the escaping exception type and the exact sequence of producer steps (IndexError ends only the __getitem__ protocol). Both models agree with CPython 3.11 on every case outside PEP 479 (scripts/c05_crosscheck.py). " +
+			"(b) full product of 52 consumers (for/else, for+break, for in a function, list/set/dict/nested comprehension, generator expression under list() and tuple(), unpack 2/3, a,*b and *a,b, f(*it), list, tuple, set, bytes, sum (with/without start), min, max, sorted (plain/reverse), zip (it first/second x long/short partner), map (1 and 2 iterables), filter (None, function), enumerate, any, all, in (found/absent), not in, str.join, list.extend, list +=, next(it, default), while/next()/except StopIteration, made-but-unconsumed then one step of map/zip/filter/enumerate/genexp, py.SequenceTuple/SequenceList/SequenceSet/Iterate from Go) x 183 producers {generator function, class with __iter__/__next__, class with only __getitem__, each also behind map(f, zip(p, range(5))), map with a raising function over a list: failure position 0-2 x raised {StopIteration, StopIteration(), StopIteration(9), ValueError, KeyError, IndexError, Exception (base class of StopIteration), LookupError (base class of IndexError)} or no failure; list iterator and range of length 0-3}; every user producer logs each step; the model predicts the result, the escaping exception type and the exact sequence of producer steps (IndexError ends only the __getitem__ protocol). Both models agree with CPython 3.11 on every case outside PEP 479 (scripts/c05_crosscheck.py). " +
 			"(c) a generator that tries to resume itself (next / send, 1-3 attempts per activation, 1-3 activations, driven by next or send): every attempt is refused with ValueError and nothing else changes. " +
 			"(d) 9 lazy wrappers (iter, map, filter, enumerate, zip with the producer first / second, generator expression, map over zip, enumerate over zip) stepped 6 times with next(), every outcome recorded, x producers {generator, class with __next__ (carries on after raising), map over a raising function (carries on), list, range} x failure position x raised class: the model gives every step's value or exception and the producer's step log - a wrapper never ends on anything but StopIteration, never stays ended on its own account, and loses exactly the items Python loses.",
 		Run: c05Run,
